@@ -566,6 +566,23 @@ func (rw *rewriter) walk(n ast.Node, depth int, opts Options) error {
 					rw.replace(se.X.End(), x.Rparen+1, fmt.Sprintf("%s, %d)", path, sid))
 					visit(se.X, depth+1)
 					return
+				case typ == "WaitGroup" && (method == "Wait" && len(x.Args) == 0 || method == "Done" && len(x.Args) == 0 || method == "Add" && len(x.Args) == 1):
+					sid := rw.site(x.Pos(), "waitgroup")
+					path, ptr := fieldPath(selection)
+					amp := "&"
+					if ptr {
+						amp = ""
+					}
+					rw.insert(se.X.Pos(), fmt.Sprintf("%s.Wg%s(%s", alias, method, amp), depth)
+					if method == "Add" {
+						rw.replace(se.X.End(), x.Lparen+1, path+", ")
+						rw.insert(x.Rparen, fmt.Sprintf(", %d", sid), -depth)
+						visit(x.Args[0], depth+1)
+					} else {
+						rw.replace(se.X.End(), x.Rparen+1, fmt.Sprintf("%s, %d)", path, sid))
+					}
+					visit(se.X, depth+1)
+					return
 				case typ == "Pool" && (method == "Get" && len(x.Args) == 0 || method == "Put" && len(x.Args) == 1):
 					sid := rw.site(x.Pos(), "pool")
 					path, ptr := fieldPath(selection)
@@ -601,7 +618,6 @@ func (rw *rewriter) walk(n ast.Node, depth int, opts Options) error {
 					rw.insert(x.End(), fmt.Sprintf(", %d)", sid), -depth)
 				case typ == "reflect.Value" && method == "MapRange",
 					typ == "Map" && method == "Range",
-					typ == "WaitGroup" && method == "Wait",
 					typ == "Cond" && method == "Wait":
 					rw.rep.Unmodelled = append(rw.rep.Unmodelled, fmt.Sprintf("%s:%d: %s.%s", rw.f.rel, rw.fset.Position(x.Pos()).Line, typ, method))
 				}
